@@ -26,6 +26,7 @@ def run(ctx, rep):
     e8b_matrix.check_split_combine(facts, rep)
     e8b_matrix.check_trans_order(facts, rep)
     e8b_matrix.check_index_maps(facts, rep)
+    e8b_matrix.check_extend_cols(facts, rep)
     e2_float.apply(facts, rep, scope, 'C13', floor_scope=150)
     rep.rule('E27', e27_trans.__doc__.strip().split('\n')[0])
     e27_trans.run(facts, rep)
